@@ -80,3 +80,84 @@ def shares(a, b):
 def snapshot(x):
     """A detached copy of an array's current element terms/values."""
     return list(np.asarray(x, dtype=object).ravel()) if isinstance(x, np.ndarray) else list(x)
+
+
+class HRandom:
+    """np.random stand-in used in both modes: every draw is a harness input.  Uniform draws
+    are rnd_<k> in [0,1); with angle=True a uniform draw u is represented as Phi/(2 pi) for
+    an angle variable Phi in [0, 2 pi) so that `u * 2 * pi` is an angle atom."""
+
+    def __init__(self, ex, angle=False):
+        self.ex = ex
+        self.n = 0
+        self.draws = []
+        self.angles = []
+        self.angle = angle
+        self.rayleigh_draws = []
+
+    def _u(self):
+        self.n += 1
+        if self.angle:
+            phi = self.ex.real('phi_%d' % self.n, 0.0, 2 * math.pi, hi_strict=True)
+            self.angles.append(phi)
+            v = phi / (2 * math.pi)
+        else:
+            v = self.ex.real('rnd_%d' % self.n, 0.0, 1.0, hi_strict=True)
+        self.draws.append(v)
+        return v
+
+    def _many(self, shape):
+        if shape in (None, ()):
+            return self._u()
+        shape = (shape,) if isinstance(shape, (int, np.integer)) else tuple(shape)
+        vals = [self._u() for _ in range(int(np.prod(shape)))]
+        return self.ex.array(vals).reshape(shape)
+
+    def random_sample(self, size=None):
+        return self._many(size)
+
+    def rand(self, *shape):
+        return self._many(shape)
+
+    def rayleigh(self, scale=1.0, size=None):
+        shape = (size,) if isinstance(size, (int, np.integer)) else tuple(size or ())
+        vals = []
+        for _ in range(int(np.prod(shape)) if shape else 1):
+            self.n += 1
+            r = self.ex.real('ray_%d' % self.n, 0.0, 5.0)
+            self.rayleigh_draws.append(r)
+            vals.append(r * scale)
+        if not shape:
+            return vals[0]
+        return self.ex.array(vals).reshape(shape)
+
+
+class _NPProxy:
+    def __init__(self, real, **over):
+        self._real = real
+        self.__dict__.update(over)
+
+    def __getattr__(self, n):
+        return getattr(self._real, n)
+
+
+import contextlib
+
+
+@contextlib.contextmanager
+def patched_random(ex, module, angle=False):
+    rnd = HRandom(ex, angle=angle)
+    old = module.np
+    if ex.sym:
+        old_r = module.np.random
+        module.np.random = rnd
+        try:
+            yield rnd
+        finally:
+            module.np.random = old_r
+    else:
+        module.np = _NPProxy(np, random=rnd)
+        try:
+            yield rnd
+        finally:
+            module.np = old
